@@ -37,4 +37,3 @@ func dumpAOF(path string) []string {
 		out = append(out, s)
 	}
 }
-
